@@ -198,7 +198,7 @@ def COSH(
     https://support.office.com/en-us/article/
         cosh-function-e460d426-c471-43e8-9540-a57ff3b70555
     """
-    return np.cosh(float(number))
+    return _finite(np.cosh(float(number)))
 
 
 @xl.register()
@@ -211,7 +211,7 @@ def DEGREES(
     https://support.office.com/en-us/article/
         degrees-function-4d6ec4db-e694-4b94-ace0-1cc3f61f9ba1
     """
-    return np.degrees(float(angle))
+    return _finite(np.degrees(float(angle)))
 
 
 @xl.register()
@@ -244,7 +244,7 @@ def EXP(
     https://support.office.com/en-us/article/
         exp-function-c578f034-2c45-4c37-bc8c-329660a63abe
     """
-    return np.exp(float(number))
+    return _finite(np.exp(float(number)))
 
 
 @xl.register()
@@ -476,6 +476,13 @@ def RADIANS(
         radians-function-ac409508-3d48-45f5-ac02-1497c92de5bf
     """
     return np.radians(float(angle))
+
+
+def _finite(value):
+    # Excel has no infinity: a result beyond the double range is #NUM!.
+    if not np.isfinite(value):
+        raise xlerrors.NumExcelError('result is too large')
+    return value
 
 
 def _round(number, num_digits, _rounding=decimal.ROUND_HALF_UP):
